@@ -1,8 +1,11 @@
 //! `qv`: drivers that run the real quandary code and record what it did as
 //! ND-JSON for validation against the TLA+ specification by TLC.
 
+mod codes_drv;
 mod common;
 mod gen;
+mod names_drv;
+mod rdata_drv;
 mod server_drv;
 
 fn main() {
@@ -13,6 +16,9 @@ fn main() {
     }
     match args[0].as_str() {
         "server" => server_drv::main(&args[1..]),
+        "codes" => codes_drv::main(&args[1..]),
+        "rdata" => rdata_drv::main(&args[1..]),
+        "names" => names_drv::main(&args[1..]),
         d => {
             eprintln!("unknown driver {}", d);
             std::process::exit(2);
